@@ -46,6 +46,7 @@ type Contract struct {
 	PureFrame bool // assigns nothing
 	Trusted   bool // contract is assumed, not verified (must be listed in evidence)
 	Inline    bool // verified on its own, but callers inline the body
+	Mode      string // "interference": verified with other goroutines allowed to change shared stores between calls
 	Discipline map[string][]string // ghost protocol disciplines checked on this function: name -> props
 	Effects   []*Effect
 	File      string
@@ -100,6 +101,18 @@ type SpecDB struct {
 	GhostPreds map[string]string  // name -> key sort
 	GhostVars  map[string]bool
 	Disjoint   [][2]string // pairs of uninterpreted functions with disjoint ranges
+	Lemmas     []*Lemma
+}
+
+// Lemma is a closed formula over universally quantified variables, checked for all values.
+type Lemma struct {
+	Label string
+	Props []string
+	Vars  [][2]string // name, type
+	Body  *specExpr
+	Pkg   string
+	Src   string
+	Line  string
 }
 
 func NewSpecDB() *SpecDB {
@@ -325,7 +338,15 @@ func (db *SpecDB) LoadSpecFile(path, pkgPath string) {
 			db.Fns[sf.Name] = sf
 		case word == "func":
 			key := rest
-			cur = &Contract{Key: key, Full: qualify(key, pkgPath), File: path, Pkg: pkgPath}
+			mode := ""
+			if i := strings.Index(key, " @"); i >= 0 {
+				mode = strings.TrimSpace(key[i+2:])
+				key = strings.TrimSpace(key[:i])
+			}
+			cur = &Contract{Key: key, Full: qualify(key, pkgPath), File: path, Pkg: pkgPath, Mode: mode}
+			if mode != "" {
+				cur.Full += "@" + mode
+			}
 			db.Contracts[cur.Full] = cur
 		case word == "iface":
 			parts := strings.Fields(rest)
@@ -341,6 +362,35 @@ func (db *SpecDB) LoadSpecFile(path, pkgPath string) {
 				continue
 			}
 			db.Disjoint = append(db.Disjoint, [2]string{fs[0], fs[1]})
+		case word == "lemma":
+			// lemma [props:label] forall x T, y U : formula
+			props, label, body := parseTag(rest)
+			body = strings.TrimSpace(body)
+			if !strings.HasPrefix(body, "forall ") {
+				fail("lemma needs: forall vars : formula")
+				continue
+			}
+			i := strings.Index(body, " : ")
+			if i < 0 {
+				fail("lemma needs ' : ' after the variables")
+				continue
+			}
+			lm := &Lemma{Label: label, Props: props, Pkg: pkgPath, Src: body, Line: where}
+			for _, v := range strings.Split(body[len("forall "):i], ",") {
+				f := strings.Fields(v)
+				if len(f) != 2 {
+					fail("lemma variable needs: name Type")
+					continue
+				}
+				lm.Vars = append(lm.Vars, [2]string{f[0], f[1]})
+			}
+			se, err := parseSpecExpr(body[i+3:])
+			if err != nil {
+				fail(err.Error())
+				continue
+			}
+			lm.Body = se
+			db.Lemmas = append(db.Lemmas, lm)
 		case word == "ghostvar":
 			db.GhostVars[strings.TrimSpace(rest)] = true
 		case word == "ghost":
@@ -980,7 +1030,8 @@ func (e *Env) call(n *ast.CallExpr) Value {
 		if ms.Vals == nil || hasNilLeaf(ms.Vals) {
 			return e.fail("map values not modelled")
 		}
-		return shapeSelect(ms.Vals, k)
+		// like Go's m[k]: the zero value when the key is absent
+		return e.ex.iteVal(And(Not(m.Nil), Select(ms.Has, k)), shapeSelect(ms.Vals, k), e.ex.G.Zero(m.T.Elem()), m.T.Elem())
 	case "ite":
 		c, ok := e.eval(n.Args[0]).(*Term)
 		a, b := e.eval(n.Args[1]), e.eval(n.Args[2])
@@ -1002,6 +1053,15 @@ func (e *Env) call(n *ast.CallExpr) Value {
 			ts = append(ts, t)
 		}
 		return Eq(App("g_Verify_r0", SInt, ts...), IntC(0))
+	case "isfunc":
+		// isfunc(f, "suffix"): the function value f is (a closure of) the function whose name ends in suffix
+		fv, ok := e.eval(n.Args[0]).(*FuncV)
+		lit, ok2 := n.Args[1].(*ast.BasicLit)
+		if !ok || !ok2 {
+			return e.fail("isfunc needs (function value, string literal)")
+		}
+		suf, _ := strconv.Unquote(lit.Value)
+		return BoolC(fv.Fn != nil && strings.HasSuffix(fv.Fn.String(), suf))
 	case "lastArg":
 		// lastArg("pattern", k): k-th argument (receiver first) of the most recent call matching the pattern
 		lit, ok := n.Args[0].(*ast.BasicLit)
